@@ -70,7 +70,11 @@ def _tf_of(elt, var):
             return ast.copy_location(ast.Name(id='$', ctx=n.ctx), n) \
                 if n.id == var else n
     import copy
-    return U(R().visit(copy.deepcopy(elt)))
+    out = U(R().visit(copy.deepcopy(elt)))
+    # one canonical spelling of the length of the element
+    for alt in ('$.shape[0]', 'np.shape($)[0]', '$.__len__()'):
+        out = out.replace(alt, 'len($)')
+    return out
 
 
 class SeqEval:
